@@ -239,6 +239,7 @@ def P(pid):
                                '(A\' = B\'/(sk+e)) and wrong-old-value behaviour are not decided.')
     elif pid == 'C13':
         R = [
+            ('RF-Q the random exponent of a signature has ls bits', rf_bits.rule_signature_randomness_bits, 2),
             ('RF-Y refusals of local helpers are never discarded (CL03)', lambda c: rf_errors.rule_errors_not_discarded(c, scope=rf_errors.SCOPE_CL03, min_sources=0), 1),
             ('RF-D CL03 verify gates (equation, e range, attribute range)', lambda c: rf_gates.rule_accept_requirements(c, CL.C13_REQS), 6),
             ('RF-Q issued exponent leaves the loop only when valid', CL.rule_e_loop_exit, 3),
@@ -314,6 +315,7 @@ def P(pid):
                                'Computational hiding is not decided.')
     elif pid == 'C18':
         R = [
+            ('RF-Q the random exponent of a signature has ls bits', rf_bits.rule_signature_randomness_bits, 2),
             ('RF-Q key / parameter generation loops and shapes', rf_bits.rule_key_generation, 20),
             ('RF-Q random helpers', rf_bits.rule_random_helpers, 6),
         ]
